@@ -150,7 +150,8 @@ cdef Split compute_all_splits(Split best_split,
         # First the leaf leaves the cluster
         leaf_star = leaf_square * (1 / n_leaf + 1 / delta_size) + gamma[k, k] * (
                 1 / delta_size - 1 / cluster_sizes[k])
-        leaf_star -= 2 * omega[k, feature_id] / delta_size
+        # sigma(N x Ck) = sigma(Sl x Ck) + sigma(Sr x Ck)
+        leaf_star -= 2 * (sl_clusters[k] + sr_clusters[k]) / delta_size
 
         delta_size = n_leaf - split_size
         split_star = sl_square * (1 / split_size + +1 / delta_size) + leaf_square * (
